@@ -28,6 +28,12 @@ ORD = {"0": "Relaxed", "1": "Release", "2": "Acquire", "3": "AcqRel", "4": "SeqC
 import props.anchors as anchors
 
 
+def _short(bid):
+    s = re.sub(r"<impl [^>]*? for ([^>]*?)(<.*?>)?>::", lambda m: m.group(1).split("::")[-1] + "::", bid)
+    s = re.sub(r"::<[^>]*>", "", s)
+    return "::".join(s.split("::")[-2:])
+
+
 def run(ctx, chk):
     O, P, L = ctx.O, ctx.P, ctx.L
     rw = O.body(RAW_WRITE)
@@ -145,6 +151,49 @@ def run(ctx, chk):
         r = O.reach(c)
         chk.oblige("B09.4ii %s takes the length as a parameter (does not load it)" % c, GET not in r,
                    key="B09.4ii|%s" % c, msg="reader constructors must not load the shared length themselves")
+    # B09.7 readers decode page bytes only while the page table is pinned (PAGES read lock): by a held guard, by a
+    # `&Pages` parameter whose callers pass the deref of a held guard, or by a source struct that owns the guard
+    ur = M(r"rawdb::reader::Reader::unchecked_read")
+    n7 = 0
+    for bid, body in sorted(P.bodies.items()):
+        if body.krate != "vecdb" or bid == CMP_WRITE or "header" in bid:
+            continue
+        for b in O.sites(body, ur):
+            sl = O.slice_back(body, body.blocks[b]["term"]["args"][1])
+            if not ({"start", "bytes"} & sl["fields"]):
+                continue
+            n7 += 1
+            held = O.held_classes(body, b)
+            how = None
+            if any(c == "PAGES" for c, m in held):
+                how = "guard held in this function"
+            pparams = [l for l in range(1, body.arg_count + 1) if body.locals[l]["ty"].endswith("::Pages")
+                       and body.locals[l]["ty"].startswith("&")]
+            if how is None and pparams:
+                ok_callers = True
+                ncall = 0
+                for caller, blk in P.callers().get(bid, []):
+                    CB = P.bodies[caller]
+                    ncall += 1
+                    a = CB.blocks[blk]["term"]["args"][pparams[0] - 1]
+                    g = O.guard_local_of(CB, a)
+                    hk = {l for c, m, l in L.held_items(CB, blk) if c == "PAGES"}
+                    cparam = [l for l in range(1, CB.arg_count + 1) if "::Pages" in CB.locals[l]["ty"]]
+                    if not ((g is not None and g in hk) or cparam):
+                        ok_callers = False
+                how = "`&Pages` parameter; all %d callers pass the deref of a held guard" % ncall if ok_callers and ncall else None
+            if how is None and body.arg_count >= 1:
+                st = re.sub(r"^&(mut )?", "", body.locals[1]["ty"]).split("<")[0]
+                adt = P.adts.get(st)
+                if adt and any(any(L.T.classify(p) == "PAGES" and not ref for m, p, ref in f["guards"])
+                               for f in adt["variants"][0]["fields"]):
+                    how = "self owns the PAGES guard"
+            chk.oblige("B09.7 %s: page bytes are read while the page table is pinned (%s)" % (_short(bid), how or "NOT PINNED"),
+                       how is not None, key="B09.7|%s|pages-not-pinned" % _short(bid),
+                       msg="a reader decodes bytes located through a page entry after the pages lock was released: the "
+                           "writer may have rewritten them")
+    if n7 < 3:
+        raise AnchorMissing("expected >= 3 page-located reads in vecdb read paths, found %d" % n7)
     # B09.6 relocation publishes the new placement only after the bytes are there (rawdb side of every append)
     from props.c10 import data_before_placement
     data_before_placement(ctx, chk, "B09.6")
